@@ -10,7 +10,8 @@ RULE = ('E1 exhaustive product: every (type, value) of universe slices LEAF,BIG,
         'compared byte-for-byte with the reference DER encoder (base-10 REAL by value); BER output in the four '
         'corners defMode x maxChunkSize {0,2} (+1000 for BIG) and CER output read back by the independent '
         'reader; CER output additionally checked against the canonical-form rules. Distinct = distinct digest '
-        'of (T, v, codec config).')
+        'of (T, v, codec config). Plus REAL sweep: 16 mantissas x sign x exponents -26..26 (thorough -70..70) '
+        'x binEncBase {2, 8, 16, automatic}: BER output read by the reference reader, compared exactly.')
 ASSUMPTIONS = [
     'reference model mc/model/x690.py (DER/CER encoder, BER reader, CER rule checker) is the trusted base; '
     'validated by selftest/test_model.py against hand-computed vectors and by generator/reader cross-checks',
@@ -92,8 +93,34 @@ def check_case(c, tier, R):
                     R.features[f] += 1
 
 
+def real_sweep(tier, R):
+    """REAL mantissa/exponent normalisation in every encoding base, read by the reference reader (exact)"""
+    T = ('REAL',)
+    for m, e, base, st in CM.real_base_sweep(tier):
+        R.evaluations += 1
+        R.nontrivial(('realbase', m, e, base))
+        rec = {'slice': 'REALBASE', 'T': T, 'v': (m, 2, e), 'binEncBase': base}
+        feats = {'real', 'enc:ber', 'cfg:binEncBase%s' % base, 'exp:neg' if e < 0 else 'exp:nonneg'}
+        if st[0] == 'exc':
+            R.violation('encode.error', rec, CM.exc_text(st[1]), 'encoding succeeds', pyasn1_site(st[1]), feats, 0)
+            continue
+        try:
+            got = M.read(T, st[1])
+            ok = M.real_value(got) == M.real_value((m, 2, e))
+            why = 'reference reader yields %r' % (got,)
+        except M.ReadError as ex:
+            ok, why = False, 'reference reader rejects: %s' % ex
+        if not ok:
+            R.violation('ber.value', rec, '%s: %s' % (st[1].hex(), why), repr((m, 2, e)), 'ber.encoder', feats, 0)
+        else:
+            for f in feats:
+                R.features[f] += 1
+
+
 def shard(tier, i, n, seed):
     R = Result()
+    if i == seed % n:
+        guarded(R, lambda: real_sweep(tier, R), {'slice': 'REALBASE'}, {'real'}, 0)
     for idx, name, T, v in CM.iter_cases(tier, i, n, seed):
         try:
             c = CM.Case(idx, name, T, v)
@@ -111,6 +138,9 @@ def shard(tier, i, n, seed):
 
 def replay(case):
     R = Result()
+    if case.get('slice') == 'REALBASE':
+        real_sweep('thorough', R)
+        return [x for x in R.violations if x.get('case', {}).get('v') == case.get('v')] or R.violations
     c = CM.Case(0, case.get('slice', '?'), case['T'], case['v'])
     check_case(c, 'thorough', R)
     return R.violations
